@@ -242,3 +242,6 @@ pub use par::collect_into::par_collect_into::ParCollectInto;
 pub use par::fallible::Fallible;
 pub use par_iter::Par;
 pub use params::Params;
+
+#[cfg(feature = "verif-hooks")]
+pub use crate::core::verif;
